@@ -313,6 +313,9 @@ def run(chk):
     for v in prog.variants():
         vn = v.name
         chk.analysed["variants"] = chk.analysed.get("variants", 0) + 1
+        # R7 the messages of the key-switching rows (and the recentring of the old generator) are computed with logical shifts only
+        from sa import shifts as _shifts
+        _shifts.check(chk, v, "R7", ["libtfhe/lwe-keyswitch-functions.cpp", "libtfhe/lwe-functions.cpp"], "key-switching key generation")
         roles = api.roles(v)
         gen = [v.defs[u] for u, r in roles.items() if r == "generation" and u in v.defs]
         chk.vcount(vn, "R1.generation_entry_points", len(gen))
